@@ -1248,3 +1248,127 @@ for _n in ("__add__", "double", "__neg__", "__eq__"):
     _c.check_concrete = _aff_check.__get__(_c)
     _c.positional = _aff_positional.__get__(_c)
     _c.domain = _aff_domain(_n in ("__add__", "__eq__"))
+
+
+# ===============================================================================================================
+# "scalar mode": the protocol layer works inside the cyclic group <G> of prime order n.  A point object is abstract:
+# ghost['scalar'] = s means the object denotes s*G (s a residue modulo n, a sympy expression over the atoms of a
+# Field whose prime is n).  The contracts of the PointJacobi methods are applied in this normal form:
+#   k * P, P * k      -> (k*s) G           (INFINITY when k*s == 0 mod n)
+#   P.mul_add(a,Q,b)  -> (a*s + b*t) G
+#   P + Q             -> (s + t) G
+#   P.x()             -> an integer atom x[(s)] that depends only on the residue s  (and 0 <= x < p_field)
+# They are the statements proved for these methods at the group level (C07) read in <G>; n*G = O and n prime are
+# facts about the named curves (closed-term check) or preconditions for user curves.
+def is_abstract(o):
+    return isinstance(o, SObj) and "scalar" in o.ghost
+
+
+def mk_abstract(ex, F, scalar, like=None, order=None, curve=None):
+    o = SObj(ex.convert(real_ec().PointJacobi), {
+        "_PointJacobi__curve": curve if curve is not None else like.fields["_PointJacobi__curve"],
+        "_PointJacobi__order": order if order is not None else (like.fields["_PointJacobi__order"] if like is not None else F.p),
+        "_PointJacobi__generator": False})
+    o.ghost["scalar"] = sp.sympify(scalar)
+    return o
+
+
+def scalar_of(ex, F, o):
+    """('O',) or ('s', expr)"""
+    if o is infinity(ex):
+        return ("O",)
+    if is_abstract(o):
+        return ("s", o.ghost["scalar"])
+    raise EngineLimit("object %r has no scalar view" % (o,))
+
+
+def point_from_scalar(ex, F, s, like):
+    if F.decide_zero(s):
+        return infinity(ex)
+    return mk_abstract(ex, F, s, like=like)
+
+
+def xcoord_atom(ex, F, s, which="x"):
+    """the affine coordinate of s*G as an integer atom determined by the residue class of s"""
+    F.xatoms = getattr(F, "xatoms", [])
+    for (w, t, a) in F.xatoms:
+        if w == which and (F.equal(t, s) or (which == "x" and F.equal(t, -s))):      # x(-P) = x(P)
+            return a
+    ex.n_fresh += 1
+    a = F.atom("%s_of_pt%d" % (which, ex.n_fresh), "free")
+    F.xatoms.append((which, s, a))
+    return a
+
+
+def _sc_mul(ex, F, vals, line):
+    o, k = vals["self"], vals["other"]
+    k = k if isinstance(k, FInt) else (F.const(k) if isinstance(k, int) else F.opaque(ex, k))
+    return point_from_scalar(ex, F, o.ghost["scalar"] * k.res, o)
+
+
+def _sc_mul_add(ex, F, vals, line):
+    o, other = vals["self"], vals["other"]
+    a, b = vals["self_mul"], vals["other_mul"]
+    a = a if isinstance(a, FInt) else F.const(a)
+    b = b if isinstance(b, FInt) else F.const(b)
+    v2 = scalar_of(ex, F, other)
+    t = sp.Integer(0) if v2[0] == "O" else v2[1]
+    return point_from_scalar(ex, F, o.ghost["scalar"] * a.res + t * b.res, o)
+
+
+def _sc_add(ex, F, vals, line):
+    o, other = vals["self"], vals["other"]
+    v2 = scalar_of(ex, F, other)
+    t = sp.Integer(0) if v2[0] == "O" else v2[1]
+    return point_from_scalar(ex, F, o.ghost["scalar"] + t, o)
+
+
+def _sc_coord(which):
+    def ap(ex, F, vals, line):
+        o = vals["self"]
+        return xcoord_atom(ex, F, o.ghost["scalar"], which)
+    return ap
+
+
+def _sc_eq(ex, F, vals, line):
+    o, other = vals["self"], vals["other"]
+    if other is infinity(ex):
+        return F.decide_zero(o.ghost["scalar"])
+    if is_abstract(other):
+        return F.decide_zero(o.ghost["scalar"] - other.ghost["scalar"])
+    return NOTIMPL
+
+
+def _sc_self(ex, F, vals, line):
+    return vals["self"]
+
+
+def _sc_neg(ex, F, vals, line):
+    o = vals["self"]
+    return mk_abstract(ex, F, -o.ghost["scalar"], like=o)
+
+
+SCALAR_APPLY = {"__mul__": _sc_mul, "mul_add": _sc_mul_add, "__add__": _sc_add, "x": _sc_coord("x"), "y": _sc_coord("y"),
+                "__eq__": _sc_eq, "scale": _sc_self, "__neg__": _sc_neg}
+
+_old_apply = MethodContract.apply
+
+
+def _apply_dispatch(self, ex, vals, line):
+    F = getattr(ex, "field", None)
+    o = vals.get("self")
+    name = self.qual.split(".")[-1]
+    if F is not None and is_abstract(o) and name in SCALAR_APPLY and "PointJacobi" in self.qual:
+        return SCALAR_APPLY[name](ex, F, vals, line)
+    return _old_apply(self, ex, vals, line)
+
+
+MethodContract.apply = _apply_dispatch
+
+# scalar multiplication entry points: contracts that exist so far only in applied (scalar / group) form; their
+# verification at the group level is the C07 part
+for _n in ("__mul__", "mul_add"):
+    if EC_MOD + "PointJacobi." + _n not in REGISTRY:
+        _c = MethodContract(EC_MOD + "PointJacobi." + _n, [], None, None, props=("C07",))
+        _c.applied_only = True
+        REGISTRY[_c.qual] = _c
